@@ -19,16 +19,36 @@
                 C09_pop_restores_bounds: cb (run (EPush :: es ++ [EPop]) s) i = cb s i (reach s, balanced es, ok_run);
      OV         th_obs = the whole object-variable state (C14_assume_pop: ov_pop h' = h); the domains value(v) are a function of
                 the literal values, which [restored] already gives back (r_assigns).
-   NOT discharged here (hence _partial): each of those models embeds its own fragment of the SAT state (assignment, queue,
-   trail) and its own event vocabulary; plugging them into the Section parameters of smt/SatCore.v needs, per theory, an
-   adapter whose embedded assignment is proved equal to the one sat_core passes (the theories read sat->value of literals that
-   are assigned but still queued, so the adapter would need the trail / queue, which the theory interface of the model does
-   not pass) - a simulation proof per theory that has not been done.  The propositional instance is complete, and the
-   history-independence of the real mixed network (sat_core + lra + idl + rdl + ov) is checked on the implementation by
-   tools/checks/c08.py (harness/h_net.cpp). *)
+   DISCHARGED for the OBJECT-VARIABLE theory (smt/SatCoreOv.v, proofs/SatCoreOv_Proofs.v): ov_theory::propagate / check never
+   fail and never record a lemma, push / pop only move the number of layers, value(v) is a function of sat_core's assignment
+   and of the domain table: C08_pop_after_assume_restores_sat_ov below is NOT partial (no theory hypothesis, no `ub` side
+   condition), with a concrete network as Example.  Tie of that instance to the code: tools/checks/c08.py (harness/h_net.cpp,
+   the real ov_theory inside the real sat_core) checks after EVERY history command that ov_theory::layers.size() is the
+   decision level, that no variable is stored in a layer and no conflict is pending, that no hook kind 2 / 3 clause consists of
+   object-variable / plain literals only (ov_theory reports nothing), and compares the domains before / after pops and against
+   a fresh network (evidence key ov_instance_tie); the domain function itself is C14's ov_value (tools/checks/c14.py, h_ov.cpp:
+   C08_ov_domain_is_the_domain_of_the_ov_model).  Listeners are outside the model.
+   NOT discharged for LRA / IDL / RDL (hence the two _partial theorems stay): each of those models embeds its own fragment of
+   the SAT state (assignment, queue, trail) and its own event vocabulary.  For IDL (RDL alike) the adapter is
+     TS = Dl.state, th_push = do_push, th_pop = do_pop, th_propagate ts a dl p = propagate_lit on ts with the embedded assignment
+     replaced by the `a` sat_core passes (idl_theory reads sat->value of constraint literals that are assigned but still queued),
+   and C10_idl_pop_restores (do_pop (run (do_push s) os) = s) does not apply to it as it stands, for two reasons that are the
+   precise missing lemmas:
+     (L1) the undo invariant DlUndo_Proofs.UP c0 N s fixes `unw s = N`, and unw contains the embedded assignment and trail; what is
+          needed is its theory projection UP' (unw restricted to n_vars, dists, preds, dist_constr, var_dists, dist_constrs, layers)
+          with UP'_push, UP'_propagate_lit (for an ARBITRARY embedded assignment / queue of the same trail depth) and
+          UP'_pop : UP' (cap s) (th_part s) s' -> th_part (do_pop s') = th_part s;
+     (L2) the structural half of `good` that UP_push consumes (shape_ok, tb_wf, so_levels, layer well-formedness, pm_sorted) is
+          only proved preserved together with the semantic half along wf_run histories whose assignment is the one built by
+          OEnqueue; it has to be proved preserved by propagate_lit / do_push / do_pop for arbitrary embedded assignments, so that
+          it can serve as th_inv of C08_pop_after_assume_restores_trace_form_partial (th_obs = th_part).
+   With (L1) and (L2) the trace-form theorem instantiates; both are re-proofs of about fifteen lemmas of DlUndo_Proofs /
+   DlStep_Proofs under weaker premises - more than the time box allowed.  LRA: C09_pop_restores_bounds has the same shape over
+   EPush / EPop events and needs the analogous adapter.  The propositional instance is complete, and the history-independence
+   of the real mixed network (sat_core + lra + idl + rdl + ov) is checked on the implementation by tools/checks/c08.py. *)
 From Coq Require Import List Arith Bool ZArith Permutation Sorted.
 From ORatio Require Import smt.SatCoreBase smt.SatCoreSpec smt.SatCore
-  proofs.SatCoreInv_Proofs proofs.SatCoreRun_Proofs proofs.SatCoreThm_Proofs proofs.SatCoreTh_Proofs proofs.SatCoreUndo_Proofs proofs.SatCoreWlThm_Proofs.
+  proofs.SatCoreInv_Proofs proofs.SatCoreRun_Proofs proofs.SatCoreThm_Proofs proofs.SatCoreTh_Proofs proofs.SatCoreUndo_Proofs proofs.SatCoreWlThm_Proofs smt.SatCoreOv proofs.SatCoreOv_Proofs.
 Import ListNotations.
 
 (* the assignment vector is a function of the trail alone, after ANY history *)
@@ -109,3 +129,55 @@ Theorem C08_pop_after_assume_restores_propositional :
   restored unit (fun ts => ts) (run (@isort lit) nt_propagate nt_check nt_id nt_id FUEL ops p_init) (pop nt_id s').
 Proof. exact c08_pop_assume_prop_no_ub. Qed.
 Print Assumptions C08_pop_after_assume_restores_propositional.
+
+(* ---------------------------------------------------------------------------------------------- *)
+(* The network sat_core + OBJECT-VARIABLE theory: the hypotheses are discharged, the theorem is not partial.
+   Instance (smt/SatCoreOv.v, read off smt/ov/ov_theory.cpp): propagate / check return "no lemma, no conflict" and leave the
+   theory state alone; push / pop only move the number of layers; the state is (domain table, number of layers); the reported
+   domain value(v) = the values of the table whose literal is not False under sat_core's assignment. *)
+Theorem C08_ov_instance_meets_the_contract_and_the_undo_laws :
+  theory_contract no_theory ov_thp ov_thc /\
+  (forall ts, ov_thpop (ov_thpush ts) = ts) /\
+  (forall ts a dl p, ov_thpop (fst (fst (ov_thp ts a dl p))) = ov_thpop ts) /\
+  (forall ts a dl, ov_thpop (fst (fst (ov_thc ts a dl))) = ov_thpop ts).
+Proof. exact (conj ov_contract (conj ov_pop_push (conj ov_pop_propagate ov_pop_check))). Qed.
+Print Assumptions C08_ov_instance_meets_the_contract_and_the_undo_laws.
+
+(* after ANY history of the network (documented preconditions only; no `ub` side condition: C07's no-UB theorem applies, the
+   theory records no lemma), a decision taken without a conflict and then undone gives back values, levels, reasons, trail,
+   level boundaries, decisions, queue, clause list, every clause up to literal order, the log, the theory state - and every
+   object variable reports the domain it reported before; the domain table is the one the network was built with *)
+Theorem C08_pop_after_assume_restores_sat_ov :
+  forall fuel doms ops,
+  ovn_run_ok fuel ops (ovn_init doms) = true ->
+  forall p s', pre (ovn_run fuel ops (ovn_init doms)) (OAssume p) = true ->
+  ovn_assume fuel (ovn_run fuel ops (ovn_init doms)) p = (s', RTrue) ->
+  log s' = log (ovn_run fuel ops (ovn_init doms)) ->
+  restored ovt (fun ts => ts) (ovn_run fuel ops (ovn_init doms)) (ovn_pop s') /\
+  (forall v, ovs_value (ovn_pop s') v = ovs_value (ovn_run fuel ops (ovn_init doms)) v) /\
+  ov_doms (thst (ovn_pop s')) = doms.
+Proof. exact c08_sat_ov. Qed.
+Print Assumptions C08_pop_after_assume_restores_sat_ov.
+
+(* ovs_value is C14's ov_value (smt/Ov.v, tied to ov_theory.cpp by tools/checks/c14.py) when the domain tables and the two
+   assignments correspond *)
+Theorem C08_ov_domain_is_the_domain_of_the_ov_model :
+  forall (o : Ov.ov_state) (s : ovstate) v,
+  ov_doms (thst s) = map (map (fun p => (fst p, conv (snd p)))) (Ov.doms o) ->
+  (forall l, is_false s (conv l) = SatEnc.lbool_eqb (SatEnc.value (Ov.sat o) l) SatEnc.LFalse) ->
+  ovs_value s v = Ov.ov_value o v.
+Proof. exact ovs_value_is_ov_value. Qed.
+Print Assumptions C08_ov_domain_is_the_domain_of_the_ov_model.
+
+(* the hypotheses are met by a concrete network: e0 over {0,1} (literals x1, x2), e1 over {1,2} (x3, x4), the equality literal
+   x5 = (e0 == e1) with new_eq's clauses; deciding x5 narrows both domains to {1}, the pop gives {0,1} and {1,2} back *)
+Example C08_sat_ov_example :
+  let s := ovn_run 100 ex_ops (ovn_init ex_doms) in
+  let s' := fst (ovn_assume 100 s (5, true)) in
+  ovn_run_ok 100 ex_ops (ovn_init ex_doms) = true /\ pre s (OAssume (5, true)) = true /\
+  ovn_assume 100 s (5, true) = (s', RTrue) /\ log s' = log s /\
+  ovs_value s 0 = [0; 1] /\ ovs_value s 1 = [1; 2] /\
+  ovs_value s' 0 = [1] /\ ovs_value s' 1 = [1] /\
+  ovs_value (ovn_pop s') 0 = [0; 1] /\ ovs_value (ovn_pop s') 1 = [1; 2].
+Proof. exact ex_sat_ov. Qed.
+Print Assumptions C08_sat_ov_example.
